@@ -1,6 +1,6 @@
 (* Runner entry points: one number per executable model function.  The Python
    harness reads the "(* ENTRY n name *)" comments to build its name table. *)
-From HX Require Import Model.Base Model.Cell Model.EmitterEntry Model.Serial Model.DateFns Model.Comparator Model.Value Model.Logic Model.Lookup Model.Text.
+From HX Require Import Model.Base Model.Cell Model.EmitterEntry Model.Serial Model.DateFns Model.Comparator Model.Value Model.Logic Model.Lookup Model.Text Model.Operators.
 
 Definition dispatch (e : Z) (a : list Z) : list Z :=
   match e with
@@ -25,5 +25,6 @@ Definition dispatch (e : Z) (a : list Z) : list Z :=
   | 1802 => e_INDEX a       (* ENTRY 1802 INDEX *)
   | 1803 => e_MATCH a       (* ENTRY 1803 MATCH *)
   | 1501 => e_text a        (* ENTRY 1501 text *)
+  | 601 => e_arith a        (* ENTRY 601 arith *)
   | _ => [-999]
   end.
